@@ -713,8 +713,65 @@ def rule_branching(repo: Repo, rep: Report) -> int:
     return n + 1
 
 
+def rule_alias_update(repo: Repo, rep: Report) -> int:
+    """ALIAS: in the composite forwards a value handed from stage to stage is never updated in place through a second
+    name.  `acc = outputs[0]` binds `acc` to the first stage output itself (no copy); `acc += other` then writes into that
+    tensor: the stage output (for a pass-through stage: the caller's input) is modified, and when two outputs share
+    storage the later addends are read after they were overwritten - the value handed on is not the declared combination.
+    Decided per augmented assignment on a plain name: every binding of the name in the function must be a fresh value
+    (a call or an arithmetic expression), not a bare name / subscript / attribute of a value that comes from a stage call,
+    a list of stage outputs, or a parameter."""
+    n = 0
+    for file, qual in ((MAC, "MultipleAccessChannelModel.forward"), (WZ, "WynerZivModel.forward"), (FB, "FeedbackChannelModel.forward"), (SEQ, "SequentialModel.forward"), (PAR, "ParallelModel.forward")):
+        fi = repo.func(file, qual)
+        params = {a.arg for a in fi.node.args.args + fi.node.args.kwonlyargs} - {"self"}
+        scalar_calls = {"len", "int", "float", "range", "min", "max", "sum", "round", "abs", "enumerate", "bool", "str"}
+        tensorish = set(params)
+        for st in ast.walk(fi.node):
+            if isinstance(st, ast.Assign) and isinstance(st.value, ast.Call) and (call_name(st.value) or "").split(".")[-1] not in scalar_calls:
+                for t in st.targets:
+                    tensorish |= {e.id for e in ast.walk(t) if isinstance(e, ast.Name)}
+            if isinstance(st, ast.Call) and isinstance(st.func, ast.Attribute) and st.func.attr in ("append", "extend", "insert") and isinstance(st.func.value, ast.Name) and st.args and isinstance(st.args[-1], ast.Call):
+                tensorish.add(st.func.value.id)
+            if isinstance(st, (ast.For, ast.comprehension)) and isinstance(st.iter, (ast.Name, ast.Subscript)):
+                base = st.iter
+                while isinstance(base, ast.Subscript):
+                    base = base.value
+                if isinstance(base, ast.Name) and base.id in tensorish:
+                    tensorish |= {e.id for e in ast.walk(st.target) if isinstance(e, ast.Name)}
+        binds: Dict[str, List[ast.AST]] = {}
+        for st in ast.walk(fi.node):
+            if isinstance(st, ast.Assign):
+                for t in st.targets:
+                    if isinstance(t, ast.Name):
+                        binds.setdefault(t.id, []).append(st)
+        for st in ast.walk(fi.node):
+            if not (isinstance(st, ast.AugAssign) and isinstance(st.target, ast.Name)):
+                continue
+            if isinstance(st.value, ast.Constant) and isinstance(st.value.value, (int, float)) and isinstance(st.op, (ast.Add, ast.Sub)):
+                continue  # counter idiom (`k += 1`): numbers are immutable, nothing is shared
+            n += 1
+            bad = None
+            for b in binds.get(st.target.id, []):
+                v = b.value
+                base = v
+                while isinstance(base, (ast.Subscript, ast.Attribute)):
+                    base = base.value
+                if isinstance(v, (ast.Name, ast.Subscript, ast.Attribute)) and isinstance(base, ast.Name) and base.id in tensorish and not (isinstance(v, ast.Attribute) and v.attr in ("shape", "ndim", "device", "dtype")):
+                    bad = b
+                    break
+            if st.target.id in params and not binds.get(st.target.id):
+                bad = st
+            if bad is not None:
+                rep.violation("ALIAS", fi, f"in-place update of `{st.target.id}`, a second name for a value that is handed between stages", f"`{unparse(bad)[:80]}` binds `{st.target.id}` to the value itself (no copy) and `{unparse(st)[:80]}` then writes into it: the stage output (for a pass-through stage the caller's input) is modified, and outputs that share storage are read after they were overwritten - the value handed on is not the declared combination of the stage outputs", node=st)
+            else:
+                rep.ok("ALIAS", fi, f"{qual}: `{unparse(st)[:60]}` updates a value created in this function", "no stage output is written through a second name", node=st, nontrivial=False)
+    return n
+
+
 def run(repo: Repo, rep: Report, tier: str) -> None:
     n = rule_seq(repo, rep)
+    rule_alias_update(repo, rep)
     n += rule_stage_lists(repo, rep)
     n += rule_mac(repo, rep)
     n += rule_wz(repo, rep)
